@@ -59,6 +59,7 @@ EXTENDS Naturals, FiniteSets
 CONSTANTS Plain,        \* plaintext blobs (positive naturals: ranks)
           Limit,        \* SmallMetaCountLimit
           Full,         \* FullMetaBlobSize
+          Witness,      \* "none" | name of a reachability witness (see WitnessStep)
           Macro,        \* BOOLEAN: also take k complete receive cycles as ONE step (RecvBatch; adds no state)
           MaxId,        \* bound on fresh object ids
           MaxJobs,      \* bound on concurrently running compaction goroutines
@@ -182,6 +183,30 @@ RecvAck ==
   /\ acked' = acked \cup {recv.p}
   /\ recv' = NoRecv
   /\ UNCHANGED <<enc, metas, heap, index, jobs, mode, todo, nextId, tam, fents, ncrash>>
+
+(* k complete receive cycles ps[1..k] (new blobs, nothing of the receive side interleaved) as ONE step: exactly
+   what k x (RecvStart, RecvBlob, RecvMeta, RecvIndex, RecvAck) do, jobs not moving meanwhile.  A macro step for
+   trace validation of long histories (one trace line per run of undisturbed receives); with Macro = TRUE the
+   model checker takes it as well and must find the same reachable states as without. *)
+RECURSIVE FoldRecord(_, _, _, _, _)
+FoldRecord(h, js, els, i, k) ==
+  IF i > k THEN {[heap |-> h, jobs |-> js]}
+  ELSE UNION {FoldRecord(o.heap, o.jobs, els, i + 1, k) :
+                o \in {x \in RecordOutcomes(h, js, els[i]) : Cardinality(x.jobs) <= MaxJobs}}
+
+RecvBatch(ps, k) ==
+  /\ Serving /\ recv = NoRecv /\ k >= 1 /\ nextId + 2 * k - 1 <= MaxId
+  /\ \A i \in 1..k : ps[i] \notin Dom(index) /\ ps[i] \notin Forge /\ \A j \in 1..k : i # j => ps[i] # ps[j]
+  /\ LET C(i) == nextId + 2 * (i - 1)
+         M(i) == nextId + 2 * (i - 1) + 1 IN
+     /\ enc' = enc \cup {[id |-> C(i), p |-> ps[i]] : i \in 1..k}
+     /\ metas' = metas \cup {[id |-> M(i), ents |-> {[p |-> ps[i], c |-> C(i)]}, n |-> 1] : i \in 1..k}
+     /\ index' = index \cup {[p |-> ps[i], c |-> C(i)] : i \in 1..k}
+     /\ \E o \in FoldRecord(heap, jobs, [i \in 1..k |-> HeapEl(M(i), {ps[i]}, 1)], 1, k) :
+           heap' = o.heap /\ jobs' = o.jobs
+  /\ acked' = acked \cup {ps[i] : i \in 1..k}
+  /\ nextId' = nextId + 2 * k
+  /\ UNCHANGED <<recv, mode, todo, tam, fents, ncrash>>
 
 (* ------------------------------------------------------------------ makePackedMetaBlob *)
 First(c) == IF Has("DeleteBeforeUpload") THEN (IF c = "a" THEN "delete" ELSE "upload")
@@ -317,6 +342,7 @@ FetchOutcome(p) ==
 
 ENext == \/ \E p \in Plain : RecvStart(p)
          \/ RecvBlob \/ RecvMeta \/ RecvIndex \/ RecvAck
+         \/ Macro /\ \E p, q \in Plain : p # q /\ RecvBatch(<<p, q>>, 2)
          \/ \E j \in jobs : JobGetOk(j)
          \/ \E j \in jobs : JobAbandon(j)
          \/ \E j \in jobs : JobUpload(j)
@@ -348,9 +374,25 @@ AckedFetchable == Serving => \A p \in acked : FetchOutcome(p) = "orig"
 (* a meta blob disappears only when every entry it holds is held by a meta blob that stays *)
 DeleteOnlyCovered == [][\A m \in metas \ metas' : m.ents \subseteq AllEnts(metas')]_evars
 
+(* Reachability witnesses for the Full mechanism: with Witness = <name> the sensitivity run MUST violate
+   WitnessStep / WitnessState (the branch of recordMeta / makePackedMetaBlob it names is explored by the model
+   checker with the constants given); with Witness = "none" both hold trivially. *)
+Started == {j \in jobs' \ jobs : j.pc = "get"}                  \* the jobs this step started
+WitnessStep == [][CASE Witness = "PushBack" -> (Started # {} => heap' = {})     \* a gather never pushes a single left-over back
+                    [] Witness = "TwoGroups" -> Cardinality(Started) <= 1        \* a gather never closes a group early
+                    [] Witness = "Ignored" ->                                    \* the start-up scan never meets a meta blob of > Full lines
+                         ((mode = "scan" /\ mode' = "scan" /\ todo' # todo) => (heap' # heap \/ jobs' # jobs))
+                    [] Witness = "NotRerecorded" ->                              \* every uploaded packed meta blob is tracked again
+                         ((\E m \in metas' \ metas : m.n > 1) => heap' # heap)
+                    [] OTHER -> TRUE]_evars
+WitnessState == Witness = "FullPacked" => \A m \in metas : m.n < Full           \* no packed meta blob ever reaches Full lines
+
 ETypeOK == /\ \A x \in enc : x.id < nextId /\ x.p \in Plain
-           /\ \A m \in metas : m.id < nextId /\ Functional(m.ents)
+           /\ \A m \in metas : m.id < nextId /\ Functional(m.ents) /\ Cardinality(m.ents) <= m.n
            /\ Cardinality(heap) <= Limit
+           /\ \A h \in heap : h.n <= Full /\ h.id \in Ids(metas) /\ Cardinality(h.plains) <= h.n
+           /\ \A j \in jobs : (Cardinality(j.del) >= 2 \/ Has("FlushDropsCarriedMeta")) /\ Cardinality(j.plains) <= j.n
+           /\ \A j1, j2 \in jobs : j1 = j2 \/ j1.del \cap j2.del = {}
            /\ mode \in {"up", "down", "scan", "failed"}
            /\ Ids(enc) \cap Ids(metas) = {}
 =============================================================================
